@@ -38,7 +38,7 @@ ScanChunks(buf, p, mj, t) ==
    ELSE IF h.st = "bad" THEN ScanR(Bad, t, FALSE)
    ELSE IF IsBreak(h) THEN ScanR(p + 1, t, FALSE)
    ELSE IF h.major # mj \/ h.indef THEN ScanR(Bad, t, FALSE)
-   ELSE IF ~IsSmall(h.arg) \/ p + h.hl + ToNat(h.arg) > Len(buf) THEN ScanR(Trunc, t, FALSE)
+   ELSE IF ~IsSmall(h.arg) \/ ToNat(h.arg) > Len(buf) - p - h.hl THEN ScanR(Trunc, t, FALSE)
    ELSE ScanChunks(buf, p + h.hl + ToNat(h.arg), mj,
                    t /\ (mj = 2 \/ ValidUtf8(SubSeq(buf, p + h.hl + 1, p + h.hl + ToNat(h.arg)))))
 Scan(buf, p, inside) ==
@@ -48,7 +48,7 @@ Scan(buf, p, inside) ==
    ELSE CASE h.major \in {0, 1} -> ScanR(p + h.hl, TRUE, FALSE)
           [] h.major \in {2, 3} ->
                IF h.indef THEN ScanChunks(buf, p + 1, h.major, TRUE)
-               ELSE IF ~IsSmall(h.arg) \/ p + h.hl + ToNat(h.arg) > Len(buf) THEN ScanR(Trunc, TRUE, FALSE)
+               ELSE IF ~IsSmall(h.arg) \/ ToNat(h.arg) > Len(buf) - p - h.hl THEN ScanR(Trunc, TRUE, FALSE)
                ELSE ScanR(p + h.hl + ToNat(h.arg),
                       h.major = 2 \/ ValidUtf8(SubSeq(buf, p + h.hl + 1, p + h.hl + ToNat(h.arg))), FALSE)
           [] h.major = 4 -> IF h.indef THEN ScanIndef(buf, p + 1, 2, TRUE, inside)
